@@ -1,0 +1,24 @@
+// Copyright 2022-2026 Sauce Labs Inc., all rights reserved.
+//
+// This Source Code Form is subject to the terms of the Mozilla Public
+// License, v. 2.0. If a copy of the MPL was not distributed with this
+// file, You can obtain one at https://mozilla.org/MPL/2.0/.
+
+//go:build verif
+
+package forwarder
+
+import (
+	"github.com/saucelabs/forwarder/ratelimit"
+	"golang.org/x/time/rate"
+)
+
+// VerifRateLimiters reports whether Listen wrapped the listener with the rate limiter and with which limiters.
+func VerifRateLimiters(l *Listener) (wrapped bool, rx, tx *rate.Limiter) {
+	rl, ok := l.listener.(*ratelimit.Listener)
+	if !ok {
+		return false, nil, nil
+	}
+	rx, tx = ratelimit.VerifLimiters(rl)
+	return true, rx, tx
+}
